@@ -618,7 +618,8 @@ def prepass(text, opaque=None, log=None):
         to an external_body stub declared in the unit:  `EXPR` => `CALL`
     N4  `for P in E.iter().skip(K) {` => `for P in &E[K..] {`  (equal whenever K <= E.len(), which Verus must prove
         as the bounds obligation of the slice expression)
-    N2b `else { continue; }` in tail position of a `for` body => `else { (); }`"""
+    N2b `else { continue; }` in tail position of a `for` body => `else { (); }`
+    N7  `match X { P if G => { A } _ => B, }` => `match X { P => { if G { A } else { B; } } _ => B, }`"""
     toks = [t for t in lex(text) if t.kind not in ("ws", "comment", "doc")]
     texts = [t.text for t in toks]
     edits = []
@@ -769,6 +770,62 @@ def prepass(text, opaque=None, log=None):
                 if log is not None:
                     log.append({"rule": "N3b", "head": head, "cond": cond})
         i += 1
+    # N7: match guard on an arm that binds by mutable reference, in a two-armed match whose other arm is `_`:
+    #     `match X { P if G => { A } _ => B, }`  =>  `match X { P => { if G { A } else { B; } } _ => B, }`
+    #     (B, an expression without bindings of P, is duplicated textually; Verus rejects "match-guard and a binding by
+    #     mutable reference" in one arm)
+    i = 0
+    while i < len(toks):
+        if texts[i] == "match":
+            d = 0
+            j = i + 1
+            while j < len(toks) and not (texts[j] == "{" and d == 0):
+                if texts[j] in ("(", "["):
+                    d += 1
+                elif texts[j] in (")", "]"):
+                    d -= 1
+                j += 1
+            if j < len(toks):
+                mc = match_close(toks, j)
+                # first arm: pattern .. [if G] => body
+                q = j + 1
+                d = 0
+                g = None
+                while q < mc and not (texts[q] == "=>" and d == 0):
+                    if texts[q] in ("(", "[", "{"):
+                        d += 1
+                    elif texts[q] in (")", "]", "}"):
+                        d -= 1
+                    elif texts[q] == "if" and d == 0 and g is None:
+                        g = q
+                    q += 1
+                if g is not None and q < mc and texts[q + 1] == "{":
+                    ac = match_close(toks, q + 1)
+                    r = ac + 1
+                    if texts[r] == ",":
+                        r += 1
+                    if texts[r] == "_" and texts[r + 1] == "=>":
+                        be = mc - 1
+                        if texts[be] == ",":
+                            be -= 1
+                        # B must be a single expression (no further arm separator at depth 0)
+                        dd = 0
+                        single = True
+                        for z in range(r + 2, be + 1):
+                            if texts[z] in ("(", "[", "{"):
+                                dd += 1
+                            elif texts[z] in (")", "]", "}"):
+                                dd -= 1
+                            elif texts[z] in (",", "=>") and dd == 0:
+                                single = False
+                        if single and texts[r + 2] != "{":
+                            guard = text[toks[g + 1].start:toks[q - 1].end]
+                            other = text[toks[r + 2].start:toks[be].end]
+                            edits.append((toks[g - 1].end, toks[q + 1].end, " => { if %s {" % guard))
+                            edits.append((toks[ac].end, toks[ac].end, " else { %s; } }" % other))
+                            if log is not None:
+                                log.append({"rule": "N7", "guard": guard, "other": other})
+        i += 1
     # N2b
     i = 0
     while i + 4 < len(toks):
@@ -872,6 +929,26 @@ def invert_prepass(s, rules):
             if s[e + 1] != "}":
                 raise ExtractError("N3b inverse: outer block does not close right after the inner one")
             s = s[:i] + ["if"] + cond + ["&&"] + head + ["{"] + s[i + len(pat):e] + ["}"] + s[e + 2:]
+        elif r["rule"] == "N7":
+            guard = [t.text for t in code_tokens(r["guard"])]
+            other = [t.text for t in code_tokens(r["other"])]
+            pat = ["=>", "{", "if"] + guard + ["{"]
+            i = _find_seq(s, pat)
+            if i < 0:
+                raise ExtractError("N7 inverse: expanded guard %r not found" % r["guard"])
+            d = 0
+            e = i + len(pat) - 1
+            for e in range(i + len(pat) - 1, len(s)):
+                if s[e] in ("(", "[", "{"):
+                    d += 1
+                elif s[e] in (")", "]", "}"):
+                    d -= 1
+                    if d == 0:
+                        break
+            tail = ["else", "{"] + other + [";", "}", "}"]
+            if s[e + 1:e + 1 + len(tail)] != tail:
+                raise ExtractError("N7 inverse: duplicated catch-all arm not found after the guarded block")
+            s = s[:i] + ["if"] + guard + ["=>", "{"] + s[i + len(pat):e] + ["}"] + s[e + 1 + len(tail):]
         elif r["rule"] == "N2b":
             pat = ["else", "{", "(", ")", ";", "}"]
             i = _find_seq(s, pat)
